@@ -27,8 +27,9 @@ CHECKS = {
         "as DSDL text in several formatting variants, read with read_namespace and compared with the specification's "
         "result; accepted models are rendered back to canonical DSDL and re-read; the hook trace of every execution (flush / "
         "commit / statement / finalize steps) must equal the step log the specification produces.",
-   note="Bounded: all line sequences of length <=4 (quick) / <=5 (thorough) over a 17-symbol alphabet and <=3/4 over the "
-        "full 27-symbol alphabet; concrete tokens per kind are fixed (uint8 fields, uint16 constants, voidN paddings). "
+   note="Bounded: all line sequences of length <=4 (quick) / <=5 (thorough) over a 17-symbol alphabet, <=3/4 over the "
+        "full 27-symbol alphabet and <=7 over the identifier-scope alphabet (constants named alike in the request and the "
+        "response part read by later constants and @print; RefsMirror); concrete tokens per kind are fixed (uint8 fields, uint16 constants, voidN paddings). "
         "Doc comments are compared under formatting changes that add or remove no comment and no empty line.",
    technique="TLA+ state machine + declarative mirror checked by TLC; every state replayed into read_namespace",
    design="4 C03"),
@@ -39,7 +40,8 @@ CHECKS = {
         "lines, and on Reader.tla that error paths and print events name the file that contains the fault / directive. "
         "Every state is replayed (LF and CRLF, statements spanning two physical lines) and (class, path, line), print events "
         "and the recorded step traces (parser / builder steps, reader steps) are compared with the specification.",
-   note="Bounded line sequences (<=4 quick, <=5 thorough) and dependency depth <=3. Known finding F4b (print path of a "
+   note="read_files configurations include a target listed twice under another spelling of its path (Dups). "
+        "Bounded line sequences (<=4 quick, <=5 thorough) and dependency depth <=3. Known finding F4b (print path of a "
         "dependency) is listed in known_findings.json.",
    technique="TLA+ state machines checked by TLC; every state replayed into read_namespace, error location compared",
    design="4 C17"),
@@ -50,7 +52,9 @@ CHECKS = {
         "type of the universe. Every TLC state is materialised as DSDL, read with read_namespace and the real type's "
         "bit_length_set, alignment_requirement, extent, length/tag/header widths are compared; capacities and variant "
         "counts are enumerated by bit length 1..64 at both ends of each interval.",
-   note="Universe: all primitive widths 1..64 in flat shapes (capacities 1-3, six sibling field types incl. sub-byte, composite "
+   note="Sessions (Layout_sessions.cfg): every pair of element types whose sets differ but agree in min / max / residues mod 32, "
+        "wrapped seven ways, both read in one process in either order (caches keyed too coarsely). "
+        "Universe: all primitive widths 1..64 in flat shapes (capacities 1-3, six sibling field types incl. sub-byte, composite "
         "and variable-length), small widths nested 2 (quick) / 3 (thorough) levels, extents max/+8/+24. Union tag boundaries "
         "are instantiated up to 2**9 (quick) / 2**13 (thorough) variants; beyond that the rule is checked on the spec only.",
    technique="TLA+ declarative layout vs symbolic aggregation checked by TLC; every state materialised and compared",
@@ -71,10 +75,14 @@ CHECKS = {
         "the property names), that padding / defaults behave as stated and that iterator offsets are the positions the "
         "encoder uses, for every (type, value, header) of the universe. Every state is replayed: serialize() must equal the "
         "specification's bytes exactly, deserialize() the canonical value, relaxed forms and omitted default fields the same "
-        "bytes, and the length must be in the real type's bit_length_set.",
-   note="Floats are opaque bit patterns with exactly representable values: IEEE-754 conversion (rounding, NaN, subnormals, "
-        "overflow to infinity) is numeric accuracy and is NOT decided. Integer widths in the enumerated universe are <= 16; "
-        "widths 1..64 x cast modes are sampled by the harness with closed-form expectations. UTF-8 arrays are outside.",
+        "bytes, and the length must be in the real type's bit_length_set. Floats.tla specifies IEEE 754 binary16 / binary32 "
+        "(Decode, round to nearest even, saturated / truncated cast) and every state of it is replayed through serialize / deserialize.",
+   note="IEEE 754 conversion is decided by Floats.tla / FloatOps.tla for binary16 (quick: 11 boundary fractions of every binade, "
+        "thorough: every pattern) and binary32 (boundary fractions of every binade): each value perturbed by 0..7 eighths of an "
+        "ulp in both signs and both cast modes, beyond-range values, infinities, NaN; RoundFin is checked by TLC against the "
+        "neighbour rule and exact distances. binary64 (53-bit significands exceed TLC's integers) stays a sampled list. Integer "
+        "widths in Wire.tla are <= 23 (every start offset 1..7 within a byte); widths 1..64 x cast modes x start offsets 0..7 "
+        "are sampled by the harness with closed-form expectations. UTF-8 arrays are outside.",
    technique="TLA+ encoder/decoder spec checked by TLC; every (type,value) state replayed into serialize/deserialize, bytes compared",
    design="4 C06"),
  "C07": dict(
@@ -138,7 +146,8 @@ CHECKS = {
         "of the statement (LoopsDecideTheRules) for every pair of definitions over names x majors 0..2 x minors x kinds x "
         "ports (none, 0, 5) x sealing x size classes, request and response separately. Every set is materialised in one "
         "namespace and read; accepted vs rejected-with-InvalidDefinitionError is compared with the declarative rules.",
-   note="Pairs exhaustively (69k), triples sampled in the thorough tier. Violations located in lookup namespaces are covered "
+   note="Pairs exhaustively (69k), every chain of three (thorough: four) minor versions under one major over kind x port x "
+        "sealing x size (29k / 45k), mixed triples sampled in the thorough tier. Violations located in lookup namespaces are covered "
         "by four fixed scope cases.",
    technique="TLA+ declarative rules vs pairwise loops checked by TLC; every set materialised and read",
    design="4 C11"),
@@ -162,7 +171,8 @@ CHECKS = {
         "small integers, a constant initialiser, array capacity, @assert and @extent; values and rejections are compared.",
    note="Magnitudes are guarded at 30000 (TLC has 32-bit integers); real exponents, negative bitwise operands, string "
         "concatenation / NFC and wide integers are outside TLC and covered by a fixed list in the harness; min / max of "
-        "singleton sets of unordered kinds are not judged.",
+        "singleton sets of unordered kinds and of sets of sets that are not chains are not judged. Operand kinds include data types "
+        "and sets of data types (no operator but the attribute one applies).",
    technique="TLA+ evaluator and precedence table checked/enumerated by TLC; every state rendered and evaluated by pydsdl",
    design="4 C04"),
  "C05": dict(
@@ -170,14 +180,16 @@ CHECKS = {
         "dimensions with Valid = conjunction of the thirteen named rule predicates stated on semantic attributes (widths, "
         "capacities, ranges, counts); Statements.tla covers directive placement exhaustively. Every abstract definition is "
         "materialised and read; accepted iff Valid, every rejection an InvalidDefinitionError.",
-   note="The legality of name tokens is a table (58 tokens) transcribed from the Specification; relative extents use the "
+   note="Capacities and extents that are not natural numbers (5/2, negative, string, boolean, set) and names with non-ASCII "
+        "letters / digits / marks, a leading digit or a dash (from the file system) are part of the pools. "
+        "The legality of name tokens is a table (63 tokens) transcribed from the Specification; relative extents use the "
         "longest representation of the sealed variant as read from the implementation (C02 decides extents).",
    technique="TLA+ rule predicates enumerated by TLC; every definition materialised and read, accept/reject compared",
    design="4 C05"),
  "C12": dict(
    text="TLC enumerates on Constants.tla every constant type (all integer widths 1..64, both signednesses and cast modes, "
         "three float formats, bool) with ~100 symbolic values each around both ends of every range (s*2^e + o + 1/3, largest "
-        "finite float +- 1/3, strings, booleans, sets); the exponent arithmetic is validated against plain integers up to 24 "
+        "finite float +- 1/3, every string of up to two characters over seven character classes, booleans, sets); the exponent arithmetic is validated against plain integers up to 24 "
         "bits. Each pair is rendered with an exact expression and read; accepted iff Compliant and the stored value exact.",
    note="Trusts C04 for the exactness of the boundary expressions.",
    technique="TLA+ compliance predicate on symbolic boundary values enumerated by TLC; every pair read by pydsdl",
@@ -185,7 +197,8 @@ CHECKS = {
  "C13": dict(
    text="TLC checks on Funnel.tla that what escapes the layered exception handlers is an InvalidDefinitionError with a path "
         "exactly for raise sites of the InvalidDefinition family, and enumerates every single token mutation (and adjacent "
-        "double mutations) of three seed definitions over a 110-entry vocabulary. Every mutated text, 45 corner texts, seeded "
+        "double mutations) of three seed definitions over a 110-entry vocabulary. Every mutated text, every state of Expr.tla's "
+        "operator x operand-kind grid in five expression contexts, 45 corner texts, seeded "
         "character noise, 31 file-name shapes and 6 duplicate file sets are read: model or InvalidDefinitionError with path; the "
         "recorded chain of exception conversions of every rejected mutation is validated by TLC (TraceFunnel.tla).",
    note="Known finding F10 (4300-digit rendering limit) is matched by its cause. Unbounded power towers are excluded "
@@ -195,7 +208,8 @@ CHECKS = {
  "C18": dict(
    text="TLC checks on Values.tla the equality laws by key (class, normalised string form, approximate bit length set) over "
         "every ordered pair of 100 type descriptions with the verdict must-equal / must-differ / either, and that no "
-        "sequence of accessor + list mutation steps changes an object's projection. Both objects of each pair are built "
+        "sequence of accessor + list mutation steps - started on a cold object (no accessor read before) or a warm one, for six kinds "
+        "of object (structure, union, delimited and its inner type, service and its request) - changes an object's projection. Both objects of each pair are built "
         "independently and ==, !=, hash, Field and BitLengthSet equality compared; objects are re-compared with fresh ones "
         "after use; pickling round-trips; accessor histories are replayed.",
    note="byte / utf8 and service types are outside the enumerated universe; expression values and bit length sets are "
@@ -205,9 +219,10 @@ CHECKS = {
  "C16": dict(
    text="TLC checks on BitLengthSets.tla that the enumeration the solver design performs for a repetition depends on the "
         "count only through EquivK(k, d) < 2d and that residue sets never exceed the divisor (CostIndependentOfK, CostBounded, "
-        "Reduction). With the solver hooks on, a family of 17 definitions is read and queried for capacity exponents 1..63; "
-        "every recorded solver event is validated by TLC against the design (TraceSolver.tla), and the instruction count "
-        "inside the bit length set package must be identical for capacities from 2**8 upward and below a fixed budget.",
+        "Reduction). With the solver hooks on, a family of 31 definitions (incl. zero-length elements and narrow sets with a huge "
+        "fixed part) is read and queried for capacity exponents 1..63; every recorded solver event is validated by TLC against "
+        "the design (TraceSolver.tla), and the instruction count inside the bit length set package must not grow from 2**16 "
+        "elements upward and stay below a fixed budget.",
    note="Wall time and memory are not decided (reported only); the decided statement is its operation-count form. The budget "
         "(4*10^7 instructions, ~7x the unchanged tree) and a 180 s terminator for work stuck in C-level iteration are the only "
         "thresholds.",
